@@ -100,7 +100,7 @@ class LeadSheet(events_lib.EventSequence):
     Returns:
       Python iterator over (melody, chord) event tuples.
     """
-    return itertools.izip(self._melody, self._chords)
+    return zip(self._melody, self._chords)
 
   def __getitem__(self, i):
     """Returns the melody-chord tuple at the given index."""
